@@ -2,227 +2,9 @@
   Property C07 — ReadOnlyFs never lets a mutation through and reads transparently
   (source: the MemMapFs model; every `Nat` flag value; every handle method).
 -/
-import AferoVerif.Model.ReadOnlyFs
+import AferoVerif.Proofs.ReadOnly
 namespace AferoVerif.C07
-open AferoVerif
-
-/-- what "the wrapped filesystem" is: every object (name, kind, bytes, mode, mtime, owner,
-    directory index) and the path map.  Handle cursors are not part of it. -/
-def tree (m : MemFs) : List FData × List (Key × ObjId) := (m.objs, m.data)
-
-/-- every handle ever returned through the wrapper is a read-only handle -/
-def AllRO (m : MemFs) : Prop := ∀ mh ∈ m.handles, mh.h.readOnly = true
-
-/-! ### the mask -/
-
-theorem and_zero_of_submask (a m m' : Nat) (h : a &&& m = 0) (hs : m' &&& m = m') : a &&& m' = 0 := by
-  rw [← hs, ← Nat.and_assoc, Nat.and_comm a m', Nat.and_assoc, h]; simp
-
-theorem mask_facts (flag : Nat) (h : flag &&& roWriteMask = 0) :
-    flag &&& (O_WRONLY ||| O_RDWR) = 0 ∧ flag &&& O_APPEND = 0 ∧ flag &&& O_CREATE = 0 ∧
-    flag &&& O_TRUNC = 0 :=
-  ⟨and_zero_of_submask _ _ _ h (by decide), and_zero_of_submask _ _ _ h (by decide),
-   and_zero_of_submask _ _ _ h (by decide), and_zero_of_submask _ _ _ h (by decide)⟩
-
-/-! ### helper facts about the source model -/
-
-theorem setObj_same (m : MemFs) (i : ObjId) : m.setObj i (m.obj i) = m := by
-  unfold MemFs.setObj MemFs.obj
-  by_cases h : i < m.objs.length
-  · have : m.objs.set i (m.objs.getD i default) = m.objs := by
-      rw [List.getD_eq_getElem?_getD, List.getElem?_eq_getElem h]; exact List.set_getElem_self h
-    rw [this]
-  · have : m.objs.set i (m.objs.getD i default) = m.objs := by
-      have hle : m.objs.length ≤ i := Nat.le_of_not_lt h
-      exact List.set_eq_of_length_le hle
-    rw [this]
-
-theorem allRO_append (m : MemFs) (f : ObjId) (h : AllRO m) :
-    AllRO { m with handles := m.handles ++ [{ obj := f, h := { readOnly := true } }] } := by
-  intro mh hmh
-  simp only [List.mem_append, List.mem_singleton] at hmh
-  rcases hmh with h1 | h1
-  · exact h mh h1
-  · subst h1; rfl
-
-theorem allRO_set (m : MemFs) (i : Nat) (mh : MHandle) (h : AllRO m) (hr : mh.h.readOnly = true) (objs data now) :
-    AllRO { objs := objs, data := data, handles := m.handles.set i mh, now := now } := by
-  intro x hx
-  rcases List.mem_or_eq_of_mem_set hx with h1 | h1
-  · exact h x h1
-  · subst h1; exact hr
-
-/-- an OpenFile that the wrapper lets through: no write access is requested, so the source
-    returns a read-only handle at offset 0 and touches nothing -/
-theorem openFile_nowrite (m : MemFs) (k : Key) (flag perm : Nat) (hf : flag &&& roWriteMask = 0) :
-    (m.openFile k flag perm = (m, .err .exist) ∨ m.openFile k flag perm = (m, .err .notexist) ∨
-     ∃ f, m.openFile k flag perm =
-       ({ m with handles := m.handles ++ [{ obj := f, h := { readOnly := true } }] }, .handle m.handles.length none)) := by
-  obtain ⟨h3, ha, hc, ht⟩ := mask_facts flag hf
-  unfold MemFs.openFile
-  by_cases hx : (m.lookup k).isSome ∧ flag &&& O_EXCL > 0
-  · left; simp [hx]
-  · simp only [hx, if_false]
-    cases hk : m.lookup k with
-    | none =>
-      right; left
-      have : ¬ flag &&& O_CREATE > 0 := by omega
-      simp [this]
-    | some f =>
-      right; right
-      refine ⟨f, ?_⟩
-      have h1 : ¬ flag &&& O_APPEND > 0 := by omega
-      have h2 : ¬ (flag &&& O_TRUNC > 0 ∧ flag &&& (O_RDWR ||| O_WRONLY) > 0) := by omega
-      have h3' : flag &&& (O_WRONLY ||| O_RDWR) = 0 := h3
-      simp [h1, h2, h3']
-
-/-- a handle function that cannot change anything through a read-only handle -/
-def ROInert (f : Bytes → Handle → Bytes × Handle × FOut) (touch : Bool) : Prop :=
-  ∀ d h, h.readOnly = true →
-    (f d h).1 = d ∧ (f d h).2.1.readOnly = true ∧ (touch = false ∨ FOut.success (f d h).2.2 = false)
-
-theorem fileIO_ro (m : MemFs) (hi : Nat) (f) (touch : Bool) (hf : ROInert f touch) (hro : AllRO m) :
-    tree (m.fileIO hi f touch).1 = tree m ∧ AllRO (m.fileIO hi f touch).1 := by
-  unfold MemFs.fileIO
-  cases hh : m.handles[hi]? with
-  | none => exact ⟨rfl, hro⟩
-  | some mh =>
-    have hmro : mh.h.readOnly = true := hro mh (List.mem_of_getElem? hh)
-    obtain ⟨h1, h2, h3⟩ := hf (m.obj mh.obj).data mh.h hmro
-    simp only
-    have hch : (touch && (f (m.obj mh.obj).data mh.h).2.2.success) = false := by
-      rcases h3 with h3 | h3
-      · simp [h3]
-      · simp [h3]
-    rw [hch, h1]
-    have hobj : (m.obj mh.obj).withIO (m.obj mh.obj).data false m.now = m.obj mh.obj := by
-      simp [FData.withIO]
-    rw [hobj, setObj_same]
-    refine ⟨rfl, ?_⟩
-    exact allRO_set m hi _ hro h2 _ _ _
-
-theorem readC_ro (d : Bytes) (h : Handle) (len : Nat) : (readC d h len).1.readOnly = h.readOnly := by
-  unfold readC; repeat' split
-  all_goals first
-    | rfl
-    | (simp only; split <;> rfl)
-
-theorem seekC_ro (d : Bytes) (h : Handle) (off : Int) (wh : Nat) : (seekC d h off wh).1.readOnly = h.readOnly := by
-  unfold seekC
-  split
-  · rfl
-  · simp only
-    repeat' split
-    all_goals rfl
-
-theorem writeC_ro (d : Bytes) (h : Handle) (b : Bytes) (hr : h.readOnly = true) :
-    (writeC d h b).1 = d ∧ (writeC d h b).2.1 = h ∧ FOut.success (writeC d h b).2.2 = false := by
-  unfold writeC
-  by_cases hc : h.closed = true
-  · simp [hc, FOut.success]
-  · simp [hc, hr, FOut.success]
-
-/-- one call through the wrapper: the source's tree is unchanged and every handle stays read-only -/
-theorem ro_step_frozen (m : MemFs) (op : Op) (hro : AllRO m) :
-    tree (roStep m op).1 = tree m ∧ AllRO (roStep m op).1 := by
-  cases op with
-  | create p => exact ⟨rfl, hro⟩
-  | mkdir p perm => exact ⟨rfl, hro⟩
-  | mkdirAll p perm => exact ⟨rfl, hro⟩
-  | remove p => exact ⟨rfl, hro⟩
-  | removeAll p => exact ⟨rfl, hro⟩
-  | rename a b => exact ⟨rfl, hro⟩
-  | chmod p mode => exact ⟨rfl, hro⟩
-  | chown p u g => exact ⟨rfl, hro⟩
-  | chtimes p t => exact ⟨rfl, hro⟩
-  | stat p => exact ⟨rfl, hro⟩
-  | hName h => exact ⟨rfl, hro⟩
-  | hStat h => exact ⟨rfl, hro⟩
-  | hSync h => exact ⟨rfl, hro⟩
-  | open_ p =>
-    simp only [roStep, MemFs.step, MemFs.openRO]
-    cases hk : m.lookup (keyOfStr p) with
-    | none => exact ⟨rfl, hro⟩
-    | some f => exact ⟨rfl, allRO_append m f hro⟩
-  | openFile p flag perm =>
-    simp only [roStep]
-    by_cases hf : flag &&& roWriteMask ≠ 0
-    · rw [if_pos hf]; exact ⟨rfl, hro⟩
-    · rw [if_neg hf]; simp only [MemFs.step]
-      have hf' : flag &&& roWriteMask = 0 := by simpa using hf
-      rcases openFile_nowrite m (keyOfStr p) flag perm hf' with h | h | ⟨f, h⟩
-      · rw [h]; exact ⟨rfl, hro⟩
-      · rw [h]; exact ⟨rfl, hro⟩
-      · rw [h]; exact ⟨rfl, allRO_append m f hro⟩
-  | hRead h n =>
-    simp only [roStep, MemFs.step, MemFs.hRead]
-    apply fileIO_ro _ _ _ _ _ hro
-    intro d hd hr
-    exact ⟨rfl, by simp only; rw [readC_ro]; exact hr, Or.inl rfl⟩
-  | hReadAt h n off =>
-    simp only [roStep, MemFs.step, MemFs.hReadAt]
-    apply fileIO_ro _ _ _ _ _ hro
-    intro d hd hr
-    refine ⟨rfl, ?_, Or.inl rfl⟩
-    simp only; unfold readAtC; repeat' split
-    all_goals exact hr
-  | hWrite h b =>
-    simp only [roStep, MemFs.step, MemFs.hWrite]
-    apply fileIO_ro _ _ _ _ _ hro
-    intro d hd hr
-    obtain ⟨h1, h2, h3⟩ := writeC_ro d hd b hr
-    exact ⟨h1, by rw [h2]; exact hr, Or.inr h3⟩
-  | hWriteAt h b off =>
-    simp only [roStep, MemFs.step, MemFs.hWriteAt]
-    apply fileIO_ro _ _ _ _ _ hro
-    intro d hd hr
-    unfold writeAtC
-    by_cases ho : off < 0
-    · simp [ho, hr, FOut.success]
-    · simp only [ho, if_false]
-      obtain ⟨h1, _, h3⟩ := writeC_ro d { hd with pos := off } b hr
-      exact ⟨h1, hr, Or.inr h3⟩
-  | hTrunc h n =>
-    simp only [roStep, MemFs.step, MemFs.hTruncate]
-    apply fileIO_ro _ _ _ _ _ hro
-    intro d hd hr
-    unfold truncC
-    by_cases hc : hd.closed = true
-    · simp [hc, hr, FOut.success]
-    · simp [hc, hr, FOut.success]
-  | hSeek h off wh =>
-    simp only [roStep, MemFs.step, MemFs.hSeek]
-    apply fileIO_ro _ _ _ _ _ hro
-    intro d hd hr
-    exact ⟨rfl, by simp only; rw [seekC_ro]; exact hr, Or.inl rfl⟩
-  | hClose h =>
-    simp only [roStep, MemFs.step, MemFs.hClose]
-    cases hh : m.handles[h]? with
-    | none => exact ⟨rfl, hro⟩
-    | some mh =>
-      have hmro : mh.h.readOnly = true := hro mh (List.mem_of_getElem? hh)
-      simp only [hmro, if_true]
-      exact ⟨rfl, allRO_set m h _ hro (by rfl) _ _ _⟩
-  | hReaddir h n =>
-    simp only [roStep, MemFs.step, MemFs.readdir]
-    cases hh : m.handles[h]? with
-    | none => exact ⟨rfl, hro⟩
-    | some mh =>
-      have hmro : mh.h.readOnly = true := hro mh (List.mem_of_getElem? hh)
-      simp only
-      split
-      · exact ⟨rfl, hro⟩
-      · exact ⟨rfl, allRO_set m h _ hro (by simpa using hmro) _ _ _⟩
-  | hReaddirnames h n =>
-    simp only [roStep, MemFs.step, MemFs.readdir]
-    cases hh : m.handles[h]? with
-    | none => exact ⟨rfl, hro⟩
-    | some mh =>
-      have hmro : mh.h.readOnly = true := hro mh (List.mem_of_getElem? hh)
-      simp only
-      split
-      · exact ⟨rfl, hro⟩
-      · exact ⟨rfl, allRO_set m h _ hro (by simpa using hmro) _ _ _⟩
+open AferoVerif AferoVerif.RO
 
 /-- run a sequence of calls through the wrapper -/
 def roRun (m : MemFs) : List Op → MemFs × List MRes
@@ -239,10 +21,6 @@ theorem ro_frozen (m : MemFs) (ops : List Op) (hro : AllRO m) : tree (roRun m op
     simp only [roRun]
     obtain ⟨h1, h2⟩ := ro_step_frozen m op hro
     rw [ih _ h2, h1]
-
-/-- a fresh wrapper has handed out no handle yet -/
-theorem allRO_init (m : MemFs) (h : m.handles = []) : AllRO m := by
-  intro mh hmh; rw [h] at hmh; simp at hmh
 
 /-- **C07 (mutators).** Every call that would create, modify, rename or delete fails with a
     permission error; so does every OpenFile whose flags request any kind of write access. -/
